@@ -33,6 +33,16 @@ fn kinds(cfg: usize) -> String {
             g.push_str(&format!("l2{}{} = {}{{ \"(\" ~ l3{} ~ \")\" ~ l3{}* }}\n", k2, k3, s2, k3, k3));
         }
     }
+    // rules that BEGIN with a repetition / an optional / a predicate (no skip before the first
+    // iteration, whatever path the caller's kind sends them down)
+    for (k3, s3) in KINDS {
+        g.push_str(&format!("m3{} = {}{{ \"c\"* ~ \"d\" ~ (\"e\" ~ \"c\"+)? }}\n", k3, s3));
+    }
+    for (k2, s2) in KINDS {
+        for (k3, _) in KINDS {
+            g.push_str(&format!("m2{}{} = {}{{ \"(\" ~ m3{} ~ \")\" ~ !m3{} ~ \".\"? }}\n", k2, k3, s2, k3, k3));
+        }
+    }
     for (k1, s1) in KINDS {
         for (k2, _) in KINDS {
             for (k3, _) in KINDS {
